@@ -285,6 +285,11 @@ theorem reactPeer_localSrflx (s : St) (src : Nat) (m : Stun) : (reactPeer s src 
     | response => exact handleResponse_localSrflx _ _ _
     | error => exact handleResponse_localSrflx _ _ _
 
+theorem completion_remoteCands (s : St) (r : Nat) : (completion s r).1.remoteCands = s.remoteCands := by
+  unfold completion
+  repeat' split
+  all_goals simp_all
+
 /-- the fallback pair changes only through `addRemoteCandidate` or a non-STUN datagram from the address of an existing pair -/
 theorem step_fallback (s : St) (op : Op) :
     (step s op).1.fallback = s.fallback ∨
